@@ -194,10 +194,13 @@ fn pick_total(rng: &mut Rng, tier: Tier) -> usize {
         rng.urange(17, 300)
     } else if r < 75 {
         *rng.pick(&SIZES)
-    } else {
+    } else if r < 97 {
         rng.urange(300, cap)
+    } else {
+        // a few long sequences: per-level counts beyond the 8192 select-hint period and several superblocks
+        rng.urange(cap, 3 * cap + 2000)
     };
-    n.min(cap)
+    n
 }
 
 /// Generates (sequence, profile name).
